@@ -280,6 +280,8 @@ class Folder(object):
                     return tuple(r)
                 if name == "dict" and not args:
                     return _FrozenDict(kwargs)
+                if name == "dict" and len(args) == 1 and not kwargs and isinstance(args[0], (tuple, _FrozenDict)):
+                    return _FrozenDict(dict(args[0]))
                 if name == "ord" and len(args) == 1:
                     return ord(args[0])
                 if name == "chr" and len(args) == 1:
@@ -304,6 +306,15 @@ class Folder(object):
                         return _struct.calcsize(args[0])
                     except Exception as x:   # noqa
                         raise Unfoldable(str(x))
+                if r and r[0] == "ext" and r[1] == "struct" and f.attr in ("unpack", "pack") and args and not kwargs and isinstance(args[0], (str, bytes)) \
+                        and all(isinstance(a, (bytes, int)) and not isinstance(a, bool) for a in args[1:]):
+                    # pure functions of constants: folded like arithmetic
+                    try:
+                        return _struct.unpack(args[0], args[1]) if f.attr == "unpack" else _struct.pack(*args)
+                    except Exception as x:   # noqa
+                        raise Unfoldable(str(x))
+                if r and r[0] == "ext" and r[1] == "int" and False:
+                    pass
             recv = ev(f.value)
             try:
                 if isinstance(recv, str) and f.attr == "format":
